@@ -120,11 +120,14 @@ def parser_offsets_ok(i: int) -> bool:
 
 # ---- DEBUG changes no result -------------------------------------------------------------------------
 
-POOL = part(selgen.general_pool())
+POOL = part(selgen.general_pool() + ['div', 'p', 'DIV', 'input', 'a-b', '_x', 'x|p', '*|*', 'svg|circle', 'h1, h2', 'p.a', '#i1'])
 NPOOL = len(POOL)
 DOC = tg.doc('forms_hp')
 DOC2 = tg.doc('plain_hp')
 NSMAP = {'x': 'urn:x', 'svg': 'http://www.w3.org/2000/svg'}
+
+
+WRAPS = [('', ''), ('', '\n'), ('\n', ''), (' ', ' '), ('', '\r\n'), ('', '/**/'), ('\t', ' /* c */\n'), ('\n\n', '\f')]
 
 
 def debug_flag_ok(i: int) -> bool:
@@ -132,17 +135,25 @@ def debug_flag_ok(i: int) -> bool:
     pre: 0 <= i < NPOOL
     post: _
     """
+    # with and without DEBUG: same structure, same hash, same selection -- for the selector as written and with
+    # insignificant whitespace / comments / line breaks around it (which also must not change the structure)
     i = concrete(i)
     with notrace():
-        s = POOL[i]
-        sv.purge()
-        a = sv.compile(s, NSMAP)
-        buf = io.StringIO()
-        with contextlib.redirect_stdout(buf):
-            b = sv.compile(s, NSMAP, flags=sv.DEBUG)
-            r2 = [id(e) for d in (DOC, DOC2) for e in b.select(d)]
-        r1 = [id(e) for d in (DOC, DOC2) for e in a.select(d)]
-        ok = a.selectors == b.selectors and r1 == r2 and hash(a.selectors) == hash(b.selectors)
+        ok = True
+        base = None
+        for pre, post in WRAPS:
+            s = pre + POOL[i] + post
+            sv.purge()
+            a = sv.compile(s, NSMAP)
+            buf = io.StringIO()
+            with contextlib.redirect_stdout(buf):
+                b = sv.compile(s, NSMAP, flags=sv.DEBUG)
+                r2 = [id(e) for d in (DOC, DOC2) for e in b.select(d)]
+            r1 = [id(e) for d in (DOC, DOC2) for e in a.select(d)]
+            ok = ok and a.selectors == b.selectors and r1 == r2 and hash(a.selectors) == hash(b.selectors)
+            if base is None:
+                base = (a.selectors, r1)
+            ok = ok and a.selectors == base[0] and r1 == base[1]
     return ret(ok)
 
 
